@@ -70,7 +70,7 @@ def base_spec(**kw):
 
 SHAPES = [(14, 5), (9, 3), (12, 4), (7, 3)]          # three chunks each
 VALUE_FAULTS = [("nan", "ra"), ("nan", "dec"), ("inf", "w"), ("nan", "z"), ("neginf", "w"), ("inf", "z"), ("nan", "w"), ("inf", "dec")]
-READER_FAULTS = [("value", None), ("unequal", "w"), ("idneg", "pid"), ("idbig", "pid")]
+READER_FAULTS = [("value", None), ("unequal", "w"), ("idneg", "pid"), ("idbig", "pid"), ("idwrap", "pid"), ("idedge", "pid")]
 
 
 def nchunks(spec):
@@ -112,7 +112,7 @@ def specs(ctx):
         for pos in positions:
             for workers in (1, rng.choice([2, 3])):
                 for j in range(3):
-                    reader_fault(READER_FAULTS[(k + j) % 4][0], pos, workers)
+                    reader_fault(READER_FAULTS[(k + j) % len(READER_FAULTS)][0], pos, workers)
                 k += 1
         par = lambda: rng.choice([2, 3])  # noqa: E731
         for workers in (1, par()):
@@ -142,7 +142,7 @@ def specs(ctx):
                 nch = -(-shp[0] // shp[1])
                 chunk = {"first": 0, "middle": nch // 2, "last": nch - 1}[pos]
                 add(shape=shp, workers=workers, fault=dict(kind=k, chunk=chunk, col=col), patch=rng.choice(["centers", "name"]))
-            for kind in ("unequal", "idneg", "idbig"):
+            for kind in ("unequal", "idneg", "idbig", "idwrap", "idedge"):
                 reader_fault(kind, pos, workers)
             chunk = {"first": 0, "middle": 1, "last": 2}[pos]
             add(workers=workers, fault=dict(kind="worker", chunk=chunk, col="ra"), patch=rng.choice(["centers", "name"]))
@@ -201,7 +201,7 @@ def scenario(spec):
             early = True
         else:
             fault = ("InReader", 0, "MissingCol")
-    elif k in ("idneg", "idbig"):
+    elif k in ("idneg", "idbig", "idwrap", "idedge"):
         fault = ("InReader", f["chunk"], "IdRange")
     elif k == "worker":
         fault = ("InWorker", f["chunk"], "Injected")
